@@ -12,7 +12,7 @@ class C16(ParserSessionProp):
     id = 'C16'
     families = FAMILIES_ALL
     max_len = 6
-    nbest_choices = (1, 1, 2, 4)
+    nbest_choices = (1, 1, 2, 4, 8)
     fault_classes = ('none', 'none', 'inband')
     rule = ('case = (word row, beam config) of a sentence answered by the real parser in a simulated session, with '
             'score rows built around the rule: ties / adjacent floats at the pruning_size boundary, scores straddling '
@@ -26,7 +26,7 @@ class C16(ParserSessionProp):
     def knobs(self, rng, tier, options):
         k = super().knobs(rng, tier, options)
         k['use_beta'] = rng.random() < 0.75
-        k['beta'] = rng.choice([1e-5, 0.01, 0.3, 0.9])
+        k['beta'] = rng.choice([1e-5, 0.01, 0.3, 0.9, 0.9, 0.999, 1e-12])
         k['pruning_size'] = rng.choice([1, 1, 2, 2, 3, 4, 8])
         return k
 
@@ -41,7 +41,7 @@ class C16(ParserSessionProp):
         for s in wspec['sentences']:
             tag = gen.hex_to_arr(s['tag'])
             n = tag.shape[0]
-            mode = rng.choice(['none', 'straddle', 'straddle', 'tie', 'flatten', 'far'])
+            mode = rng.choice(['none', 'straddle', 'straddle', 'tie', 'flatten', 'far', 'neginf', 'best_zero'])
             s['beam_mode'] = mode
             if mode == 'none' or T < 2:
                 continue
@@ -68,6 +68,11 @@ class C16(ParserSessionProp):
                 elif mode == 'far':
                     t = int(order[rng.randrange(1, T)])
                     row[t] = numpy.float32(best + math.log(beta) - rng.choice([3.0, 20.0, 200.0]))
+                elif mode == 'neginf':
+                    t = int(order[rng.randrange(1, T)])
+                    row[t] = -numpy.inf                       # probability zero is a legitimate log-probability
+                elif mode == 'best_zero':
+                    row[int(order[0])] = 0.0                  # a tagger that is certain
                 elif mode == 'tie' and T > ps:
                     a, b = int(order[ps - 1]), int(order[ps])
                     if rng.random() < 0.5:
@@ -162,6 +167,19 @@ class C16(ParserSessionProp):
                                      f'use_beta {cfg["use_beta"]}): {why}'),
                             signature={'kind': 'pruning' if rank >= cfg['pruning_size'] else 'beta'}))
                         return out
+            # (1b) whatever the order among tied tags, one word never has more than pruning_size admitted tags:
+            # the tags a word carries across the trees of one response must fit into one beam
+            for i in range(n):
+                used = {world.cat_index.get(st.tree.leaves[i].cat) for st in resp if len(st.tree.leaves) == n}
+                used.discard(None)
+                if len(used) > cfg['pruning_size']:
+                    out.append(Violation(
+                        oracle='at_most_pruning_size_tags_per_word',
+                        message=(f'sentence {sid} word {i}: the {len(resp)} returned trees use {len(used)} different tags '
+                                 f'for this word, pruning_size is {cfg["pruning_size"]} (scores '
+                                 f'{sorted((float(world.tag0[sid][i][t]) for t in used), reverse=True)})'),
+                        signature={'kind': 'count'}))
+                    return out
             # (2) failure clause: a parse exists only if the not-surely-excluded tags allow one
             try:
                 ub = refparser.viterbi(n, world.tag0[sid], world.dep0[sid], world.categories, maybe,
